@@ -161,6 +161,8 @@ HARNESS = {
     f'{Q}:qnmatch': {'cases': _match_cases, 'check': _check_match,
         'bound': 'all patterns <= 3 (4) x all names <= 3 over 8 characters + random longer pairs; patterns with - or \\\\ excluded (outside the documented grammar)'},
     f'{M}:System.privacyClass': {'cases': _rule_cases, 'check': _check_privacy,
+        'covers': [f'{M}:Documentable.privacyClass', f'{M}:Module.privacyClass', f'{M}:Documentable.isVisible',
+                   f'{M}:Documentable.isPrivate'],
         'bound': 'every object of a 4-module fixture x all single rules (13 patterns x 3 levels) + 150 (2000 + all pairs) rule lists; each queried twice (cache)'},
     'pydoctor/utils.py:parse_privacy_tuple': {'cases': _tuple_cases, 'check': _check_tuple, 'bound': '12 hand-picked option values'},
 }
